@@ -161,10 +161,21 @@ def d_state(sv):
             "norad_id": _int(sv._data.get("norad_id")),
             "revolutions": _int(sv._data.get("revolutions")),
             "element_nb": _int(sv._data.get("element_nb")),
+            "classification": _classification(sv),
         }
     else:
         raise ValueError(f"form {form!r} not handled by the comparison model")
     return out
+
+
+def _classification(sv):
+    """Classification letter of the element set: carried by the Tle object of orbits made by Tle.orbit(),
+    by the `classification_type` keyword of orbits made by the OMM readers (None when neither exists)."""
+    tle = sv._data.get("tle")
+    if tle is not None and getattr(tle, "classification", None) is not None:
+        return str(tle.classification)
+    c = sv._data.get("classification_type")
+    return None if c is None else str(c)
 
 
 def _num(x):
@@ -357,6 +368,10 @@ class _Cmp:
         for k in ("norad_id", "revolutions", "element_nb"):
             if exp[k] != obs[k]:
                 self.add("tle." + k, _presence(exp[k], obs[k]), where, exp[k], obs[k])
+        # an element set without classification information is unclassified ("U", the default of the readers)
+        ec, oc = exp.get("classification") or "U", obs.get("classification") or "U"
+        if ec != oc:
+            self.add("tle.classification", f"{ec}->{oc}", where, ec, oc)
 
     def ephem(self, where, exp, obs):
         self.text("name", where, exp["name"], obs["name"], absent=(None, "N/A"))
@@ -500,8 +515,10 @@ def strip_derived(text):
 
 def text_diff(a, b, limit=3):
     """First differing lines of two texts after removing the creation date ([] when identical)."""
-    la = strip_creation_date(a).splitlines()
-    lb = strip_creation_date(b).splitlines()
+    # blank lines carry nothing in either encoding (e.g. the separator the KVN writers put before an empty
+    # user-defined block): only the non-empty lines are compared, without trailing blanks
+    la = [l.rstrip() for l in strip_creation_date(a).splitlines() if l.strip()]
+    lb = [l.rstrip() for l in strip_creation_date(b).splitlines() if l.strip()]
     out = []
     for k in range(max(len(la), len(lb))):
         x = la[k] if k < len(la) else None
@@ -679,6 +696,7 @@ def selftest():
     k1 = "CCSDS_OPM_VERS = 2.0\nCREATION_DATE = 2020-01-01T00:00:00.000001\nX = 1\n"
     k2 = "CCSDS_OPM_VERS = 2.0\nCREATION_DATE = 2021-05-01T00:00:00.5\nX = 1\n"
     assert text_diff(k1, k2) == [] and text_diff(k1, k2.replace("X = 1", "X = 2")) == [[3, "X = 1", "X = 2"]]
+    assert text_diff(k1, k2.replace("X = 1", "\nX = 1\n\n")) == []
     x1 = "<?xml version='1.0'?>\n<opm><header><CREATION_DATE>2020-01-01T00:00:00.1</CREATION_DATE></header></opm>"
     assert text_diff(x1, x1.replace("2020", "2033")) == []
     assert text_format(k1) == "kvn" and text_format(x1) == "xml"
